@@ -72,6 +72,8 @@ type scenario struct {
 	akind       []int
 	seed        []int // indices put into the local table
 	order       []int // preferred completion order (TLC-generated schedules); empty = seeded random
+	groups      [][]int // TLC-generated: replies delivered with no consumption in between (released together)
+	burst       bool    // seeded: whenever several queries are outstanding, let them all complete at the same moment
 	cancelAfter int   // cancel the context after this many completed queries (-1 = never)
 	content     [][]byte
 }
@@ -169,6 +171,7 @@ func buildScenario(rng *rand.Rand, t int, kind string, npeers int) *scenario {
 	if kind == "node" && rng.Intn(5) == 0 {
 		sc.cancelAfter = rng.Intn(6)
 	}
+	sc.burst = npeers >= 3 && rng.Intn(3) == 0
 	return sc
 }
 
@@ -226,14 +229,22 @@ func scenarioFromCase(rng *rand.Rand, t int, c genCase) *scenario {
 		rng.Read(sc.content[h])
 	}
 	replies := 0
+	var group []int
 	for _, h := range c.Hist {
 		switch h.Ev {
+		case "consume":
+			// replies the model delivered since the last consumption sat in the channel together
+			if len(group) > 1 {
+				sc.groups = append(sc.groups, group)
+			}
+			group = nil
 		case "reply":
 			if !h.Content {
 				sc.akind[h.P] = aAll // "explicit answer list"
 				sc.answers[h.P] = h.Ans
 			}
 			sc.order = append(sc.order, h.P)
+			group = append(group, h.P)
 			replies++
 		case "cancel":
 			if kind == "node" && sc.cancelAfter < 0 {
@@ -255,7 +266,14 @@ func runScenario(w *tracelog.Writer, rng *rand.Rand, sc *scenario) error {
 	if err != nil {
 		return err
 	}
-	defer vt.Close(true)
+	tabClosed := false
+	closeTab := func() {
+		if !tabClosed {
+			tabClosed = true
+			vt.Close(true)
+		}
+	}
+	defer closeTab()
 	seedSet := map[int]bool{}
 	for _, i := range sc.seed {
 		if vt.AddFoundLoop(sc.nodes[i]) {
@@ -277,6 +295,8 @@ func runScenario(w *tracelog.Writer, rng *rand.Rand, sc *scenario) error {
 
 	var mu sync.Mutex
 	gates := map[int]chan struct{}{}
+	fat := map[int]int{}
+	bursts := 0
 	events := make(chan qev, 4096)
 	pendingContent := map[int][]byte{}
 	query := func(n *enode.Node) ([]*enode.Node, []byte, error) {
@@ -293,6 +313,10 @@ func runScenario(w *tracelog.Writer, rng *rand.Rand, sc *scenario) error {
 		<-g
 		var out []*enode.Node
 		ans := []int{}
+		mu.Lock()
+		pad := fat[i]
+		delete(fat, i)
+		mu.Unlock()
 		var err error
 		var content []byte
 		if i >= 0 {
@@ -306,10 +330,18 @@ func runScenario(w *tracelog.Writer, rng *rand.Rand, sc *scenario) error {
 					out = append(out, sc.nodes[j])
 					ans = append(ans, j)
 				}
+				// a "fat" answer repeats the answering peer's own record (already seen and asked, so it adds nothing)
+				// many times: merging it keeps the lookup goroutine busy while the other released replies arrive
+				for k := 0; k < pad; k++ {
+					out = append(out, sc.nodes[i])
+				}
+				if pad > 0 {
+					ans = append(ans, i)
+				}
 			}
 		}
 		mu.Lock()
-		ev := map[string]any{"ev": "q.end", "t": sc.t, "p": i, "ans": ans, "err": err != nil, "content": content != nil, "ctag": 0, "clen": 0}
+		ev := map[string]any{"ev": "q.end", "t": sc.t, "p": i, "ans": ans, "err": err != nil, "content": content != nil, "ctag": 0, "clen": 0, "pad": pad}
 		if content != nil {
 			ev["ctag"], ev["clen"] = common.Tag(content), len(content)
 			pendingContent[i] = content
@@ -403,10 +435,58 @@ func runScenario(w *tracelog.Writer, rng *rand.Rand, sc *scenario) error {
 				}
 				orderPos++
 			}
+			// replies that are to sit in the reply channel together: the picked one is made fat and released first,
+			// the others follow while the lookup goroutine is still merging it
+			var together []int
+			if sc.burst && len(open) > 1 {
+				for _, o := range open {
+					if o != pick {
+						together = append(together, o)
+					}
+				}
+			}
+			for _, grp := range sc.groups {
+				if len(grp) > 1 && grp[0] == pick {
+					for _, o := range grp[1:] {
+						if _, ok := gates[o]; ok {
+							together = append(together, o)
+						}
+					}
+					// the replayed order has these replies consumed already
+					for orderPos < len(sc.order) && contains(together, sc.order[orderPos]) {
+						orderPos++
+					}
+					break
+				}
+			}
 			g := gates[pick]
 			delete(gates, pick)
+			if len(together) > 0 {
+				// with the table's loop stopped (as at shutdown) trackRequest returns at once, so the completing queries are
+				// not serialised through the table loop on their way to the reply channel (measured: with the loop running
+				// two replies are almost never in the channel together, the loop spaces them by one operation)
+				closeTab()
+			}
+			if len(together) > 0 && pick >= 0 && sc.akind[pick] != aFail && sc.akind[pick] != aContent {
+				fat[pick] = 150000
+				bursts++
+			}
 			close(g)
 			completed++
+			if len(together) > 0 {
+				gs := make([]chan struct{}, 0, len(together))
+				for _, o := range together {
+					gs = append(gs, gates[o])
+					delete(gates, o)
+					completed++
+				}
+				mu.Unlock()
+				time.Sleep(300 * time.Microsecond) // the fat reply reaches the lookup goroutine first
+				for _, og := range gs {
+					close(og)
+				}
+				mu.Lock()
+			}
 		}
 		mu.Unlock()
 		if pick == -2 {
@@ -429,7 +509,8 @@ func runScenario(w *tracelog.Writer, rng *rand.Rand, sc *scenario) error {
 	}
 	mu.Unlock()
 	time.Sleep(grace)
-	ev := map[string]any{"ev": "lk.done", "t": sc.t, "kind": sc.kind, "res": []int{}, "found": res.found, "ctag": 0, "clen": 0, "cancelled": cancelled}
+	ev := map[string]any{"ev": "lk.done", "t": sc.t, "kind": sc.kind, "res": []int{}, "found": res.found, "ctag": 0, "clen": 0, "cancelled": cancelled,
+		"bursts": bursts}
 	if sc.kind == "node" {
 		r := []int{}
 		for _, n := range res.res {
@@ -447,6 +528,15 @@ func runScenario(w *tracelog.Writer, rng *rand.Rand, sc *scenario) error {
 	w.Emit(ev)
 	mu.Unlock()
 	return nil
+}
+
+func contains(s []int, x int) bool {
+	for _, y := range s {
+		if y == x {
+			return true
+		}
+	}
+	return false
 }
 
 func Main(args []string) error {
